@@ -86,6 +86,25 @@ func (r *vfReader) Seek(off int64, whence int) (int64, error) {
 var vfNamesPlain = [vfMaxT]string{"token_embd.weight", "output.weight", "output_norm.weight", "rope_freqs.weight"}
 var vfNamesBlk = [vfMaxT]string{"blk.1.attn_q.weight", "token_embd.weight", "blk.0.ffn_up.weight", "output.weight"}
 
+// ggml's type table for the kinds the jobs use: elements per block, bytes per block
+func vfRefBlock(kind int) (bs, bytes uint64, known bool) {
+	switch kind {
+	case 0:
+		return 1, 4, true
+	case 1, 30:
+		return 1, 2, true
+	case 2:
+		return 32, 18, true
+	case 8:
+		return 32, 34, true
+	case 12:
+		return 256, 144, true
+	case 14:
+		return 256, 210, true
+	}
+	return 0, 0, false
+}
+
 // VerifC05Offsets: nT tensors of one kind with one symbolic dimension each (and a fixed second
 // dimension dim2 >= 1), written with the given alignment, then decoded.
 func VerifC05Offsets(nT int, align int, kind int, dim2 int, blk int) {
@@ -103,6 +122,16 @@ func VerifC05Offsets(nT int, align int, kind int, dim2 int, blk int) {
 			shape = []uint64{n, uint64(dim2)}
 		}
 		ts[i] = Tensor{Name: names[i], Kind: uint32(kind), Shape: shape}
+		// the bytes a tensor occupies, from ggml's published type table (not from Tensor.Size): elements
+		// / elements-per-block x bytes-per-block
+		elems := n
+		if dim2 > 1 {
+			elems = n * uint64(dim2)
+		}
+		if bs, tsz, known := vfRefBlock(kind); known {
+			verifAssume(elems%bs == 0) // a tensor holds whole blocks
+			verifAssert(ts[i].Size() == elems/bs*tsz, "size-is-elements-over-block-times-block-bytes")
+		}
 		ts[i].WriterTo = vfData{f: f, i: i, n: int64(ts[i].Size())}
 	}
 	kv := KV{"general.architecture": "x"}
